@@ -1,5 +1,6 @@
 import Driver.Proto
 import TongoModel.BitOps
+import TongoModel.CellSeq
 /-! Line handlers for property C06 (bit strings and cell read/write primitives).
 
 `bs.seq <cap> <item;item;…>`     run the items on `NewBitString(cap)`; answer: one result per item, then
@@ -14,10 +15,11 @@ open Tongo Tongo.BitString
 
 inductive Item where
   | op (o : Op)
+  | zop (z : ZOp)
   | fift
   | topUp
-  | on (n : Nat)
-  | off (n : Nat)
+  | on (n : Int)
+  | off (n : Int)
   | setTop (arr : List UInt8) (full : Bool)
   | avail
   -- cell items
@@ -32,36 +34,36 @@ def parseItem (tok : String) : Option Item :=
   match tok.splitOn ":" with
   | ["wb", b] => some (.op (.writeBit (b == "1")))
   | ["wa", l] => (binArg l).map fun l => .op (.writeBitArray l)
-  | ["wu", v, n] => do let v ← v.toNat?; let n ← n.toNat?; pure (.op (.writeUint v n))
-  | ["wi", v, n] => do let v ← v.toInt?; let n ← n.toNat?; pure (.op (.writeInt v n))
+  | ["wu", v, n] => do let v ← v.toNat?; let n ← n.toInt?; pure (if n < 0 then .zop (.writeUint v n) else .op (.writeUint v n.toNat))
+  | ["wi", v, n] => do let v ← v.toInt?; let n ← n.toInt?; pure (if n < 0 then .zop (.writeInt v n) else .op (.writeInt v n.toNat))
   | ["wB", b] => do let b ← b.toNat?; pure (.op (.writeByte (UInt8.ofNat b)))
   | ["wy", h] => (hexArg h).map fun l => .op (.writeBytes l)
   | ["ws", l] => (binArg l).map fun l => .op (.writeBitString (ofBits l))
-  | ["wU", v, n] => do let v ← v.toInt?; let n ← n.toNat?; pure (.op (.writeBigUint v n))
-  | ["wI", v, n] => do let v ← v.toInt?; let n ← n.toNat?; pure (.op (.writeBigInt v n))
+  | ["wU", v, n] => do let v ← v.toInt?; let n ← n.toInt?; pure (if n < 0 then .zop (.writeBigUint v n) else .op (.writeBigUint v n.toNat))
+  | ["wI", v, n] => do let v ← v.toInt?; let n ← n.toInt?; pure (if n ≤ 0 then .zop (.writeBigInt v n) else .op (.writeBigInt v n.toNat))
   | ["wn", n] => do let n ← n.toNat?; pure (.op (.writeUnary n))
-  | ["wl", v, n] => do let v ← v.toNat?; let n ← n.toNat?; pure (.op (.writeLimUint v n))
+  | ["wl", v, n] => do let v ← v.toInt?; let n ← n.toInt?; pure (if v < 0 ∨ n < 0 then .zop (.writeLimUint v n) else .op (.writeLimUint v.toNat n.toNat))
   | ["rb"] => some (.op .readBit)
-  | ["sk", n] => do let n ← n.toNat?; pure (.op (.skip n))
-  | ["ru", n] => do let n ← n.toNat?; pure (.op (.readUint n))
-  | ["pu", n] => do let n ← n.toNat?; pure (.op (.pickUint n))
-  | ["ri", n] => do let n ← n.toNat?; pure (.op (.readInt n))
+  | ["sk", n] => do let n ← n.toInt?; pure (if n < 0 then .zop (.skip n) else .op (.skip n.toNat))
+  | ["ru", n] => do let n ← n.toInt?; pure (if n < 0 then .zop (.readUint n) else .op (.readUint n.toNat))
+  | ["pu", n] => do let n ← n.toInt?; pure (if n < 0 then .zop (.pickUint n) else .op (.pickUint n.toNat))
+  | ["ri", n] => do let n ← n.toInt?; pure (if n < 0 then .zop (.readInt n) else .op (.readInt n.toNat))
   | ["rB"] => some (.op .readByte)
-  | ["ry", n] => do let n ← n.toNat?; pure (.op (.readBytes n))
-  | ["rs", n] => do let n ← n.toNat?; pure (.op (.readBits n))
+  | ["ry", n] => do let n ← n.toInt?; pure (if n < 0 then .zop (.readBytes n) else .op (.readBytes n.toNat))
+  | ["rs", n] => do let n ← n.toInt?; pure (if n < 0 then .zop (.readBits n) else .op (.readBits n.toNat))
   | ["rr"] => some (.op .readRemainingBits)
-  | ["rU", n] => do let n ← n.toNat?; pure (.op (.readBigUint n))
-  | ["rI", n] => do let n ← n.toNat?; pure (.op (.readBigInt n))
+  | ["rU", n] => do let n ← n.toInt?; pure (if n < 0 then .zop (.readBigUint n) else .op (.readBigUint n.toNat))
+  | ["rI", n] => do let n ← n.toInt?; pure (if n < 0 then .zop (.readBigInt n) else .op (.readBigInt n.toNat))
   | ["rn"] => some (.op .readUnary)
-  | ["rl", n] => do let n ← n.toNat?; pure (.op (.readLimUint n))
+  | ["rl", n] => do let n ← n.toInt?; pure (if n < 0 then .zop (.readLimUint n) else .op (.readLimUint n.toNat))
   | ["rc"] => some (.op .resetCounter)
   | ["gr", n] => do let n ← n.toNat?; pure (.op (.grow n))
   | ["ap", l] => (binArg l).map fun l => .op (.append (ofBits l))
   | ["cp"] => some (.op .copy)
   | ["fh"] => some .fift
   | ["gt"] => some .topUp
-  | ["on", n] => do let n ← n.toNat?; pure (.on n)
-  | ["off", n] => do let n ← n.toNat?; pure (.off n)
+  | ["on", n] => do let n ← n.toInt?; pure (.on n)
+  | ["off", n] => do let n ← n.toInt?; pure (.off n)
   | ["st", h, f] => (hexArg h).map fun l => .setTop l (f == "1")
   | ["av"] => some .avail
   | ["ar", l] => (binArg l).map fun l => .addRef l
@@ -99,8 +101,9 @@ def runItem : Item → M String
   | .op o => do let r ← o.run; pure (showOut r)
   | .fift => do let s ← get; let r ← liftO (toFiftHex s); pure ("ok:" ++ String.ofList r)
   | .topUp => do let s ← get; let r ← liftO (getTopUppedArray s); pure ("ok:" ++ hexOut r)
-  | .on n => do BitString.on n; pure "ok"
-  | .off n => do BitString.off n; pure "ok"
+  | .zop z => do let r ← z.run; pure (showOut r)
+  | .on n => do let r ← ZOp.onOff true n; pure (showOut r)
+  | .off n => do let r ← ZOp.onOff false n; pure (showOut r)
   | .setTop arr f => do BitString.setTopUppedArray arr f; pure "ok"
   | .avail => do let s ← get; pure s!"ok:{s.bitsAvailableForWrite}/{s.bitsAvailableForRead}"
   | _ => pure "bad"
@@ -129,9 +132,11 @@ def showIdeal (t : Ideal) : String :=
 def specHandler : Handler
   | [c, items] => match c.toNat?, parseItems items with
     | some cap, some its =>
-      match its.mapM (fun | .op o => if o.WF then some o else none | _ => none) with
+      match its.mapM (fun | .op o => if o.WF then some (ZOp.op o) else none
+                          | .zop z => if z.WF then some z else none
+                          | _ => none) with
       | some ops =>
-        let (rs, t) := Op.specAll ops ⟨[], cap, 0⟩
+        let (rs, t) := ZOp.specAll ops ⟨[], cap, 0⟩
         answer (rs.map fun r => showRes (match r with | .ok o => .ok (showOut o.norm) | .err e => .err e | .panic p => .panic p)) (showIdeal t)
       | none => "bad-op"
     | _, _ => "bad-op"
@@ -221,7 +226,61 @@ def cellHandler : Handler
     | _, _ => "bad-op"
   | _ => "bad-op"
 
+/-! cell-level sequences over a heap -/
+
+open Tongo.CellSeq in
+private def parseCellStep (tok : String) : Option (Nat × CellOp) :=
+  match tok.splitOn "." with
+  | [t, it] => do
+    let t ← t.toNat?
+    let op ← match it.splitOn ":" with
+      | ["nc"] => some CellOp.newCell
+      | ["ar", c] => c.toNat?.map CellOp.addRef
+      | ["nf"] => some .newRef
+      | ["nr"] => some .nextRef
+      | ["rC"] => some .resetCounters
+      | ["cr"] => some .copyRemaining
+      | ["rz"] => some .refsSize
+      | ["ra"] => some .refsAvailableForRead
+      | ["ba"] => some .bitsAvailableForRead
+      | ["bw"] => some .bitsAvailableForWrite
+      | _ => match parseItem it with
+        | some (.op o) => some (.bit (.op o))
+        | some (.zop z) => some (.bit z)
+        | _ => none
+    pure (t, op)
+  | _ => none
+
+private def parseCellSteps (s : String) : Option (List (Nat × Tongo.CellSeq.CellOp)) :=
+  if s == "-" then some [] else (s.splitOn ";").mapM parseCellStep
+
+private def showRefs (refs : List Nat) (avail : Int) : String :=
+  "[" ++ ",".intercalate (refs.map toString) ++ s!"] {avail}"
+
+private def cellSeqAnswer (rs : List (Outcome Out)) (cells : List String) : String :=
+  let outs := rs.map fun r => showRes (match r with | .ok o => .ok (showOut o.norm) | .err e => .err e | .panic p => .panic p)
+  " ".intercalate (outs ++ ["|", " / ".intercalate cells])
+
+open Tongo.CellSeq in
+private def cellSeqHandler (spec : Bool) : Handler
+  | [steps] => match parseCellSteps steps with
+    | some ops =>
+      if spec then
+        if ops.all (fun p => decide p.2.WF) then
+          let (rs, g) := runAll specI ops initSpec
+          cellSeqAnswer rs (g.map fun c => showIdeal c.bits ++ " " ++ showRefs c.refs ((c.refs.length : Int) - c.refCursor))
+        else "bad-op"
+      else
+        let (rs, h) := runAll implI ops initImpl
+        let panicked := rs.any fun r => match r with | .panic _ => true | _ => false
+        if panicked then cellSeqAnswer rs ["panic"]
+        else cellSeqAnswer rs (h.map fun c => showState c.bits ++ " " ++ showRefs c.refs ((c.refs.length : Int) - c.refCursor))
+    | none => "bad-op"
+  | _ => "bad-op"
+
 def opsC06 : List (String × Handler) := [
+  ("bs.cellseq", cellSeqHandler false),
+  ("bs.cellspec", cellSeqHandler true),
   ("bs.seq", seqHandler),
   ("bs.spec", specHandler),
   ("bs.grid", gridHandler),
